@@ -224,12 +224,12 @@ Definition SimC (fu: nat) : Prop := forall m h r T r', climb fu m h r = Some (T,
   forall (s: pstate) lr stop l0 hN, Spell lr (kv_rest r) -> Up s (lr ++ stop :: l0) -> bstop (tk stop) = true -> strip hN = etree h ->
   ROK r' /\ exists f0 N s' lr', (forall f, f0 <= f -> p_binary_climb P f m hN s = Ok (N, s')) /\
                                Spell lr' (kv_rest r') /\ Up s' (lr' ++ stop :: l0) /\ strip N = etree T /\
-                               idx P s' + length lr' = idx P s + length lr /\ N.to_nat (ticks P s') + 3 * length lr' <= N.to_nat (ticks P s) + 3 * length lr.
+                               idx P s' + length lr' = idx P s + length lr /\ N.to_nat (ticks P s') + 3 * length lr' <= N.to_nat (ticks P s) + 3 * length lr /\ SC P s s'.
 Definition SimI (fu: nat) : Prop := forall p h r T r', inner fu p h r = Some (T, r') -> ROK r ->
   forall (s: pstate) lr stop l0 hN, Spell lr (kv_rest r) -> Up s (lr ++ stop :: l0) -> bstop (tk stop) = true -> strip hN = etree h ->
   ROK r' /\ exists f0 N s' lr', (forall f, f0 <= f -> p_binary_inner P f p hN s = Ok (N, s')) /\
                                Spell lr' (kv_rest r') /\ Up s' (lr' ++ stop :: l0) /\ strip N = etree T /\
-                               idx P s' + length lr' = idx P s + length lr /\ N.to_nat (ticks P s') + 3 * length lr' <= N.to_nat (ticks P s) + 3 * length lr.
+                               idx P s' + length lr' = idx P s + length lr /\ N.to_nat (ticks P s') + 3 * length lr' <= N.to_nat (ticks P s) + 3 * length lr /\ SC P s s'.
 
 Lemma sim : forall fu, SimC fu /\ SimI fu.
 Proof.
